@@ -29,7 +29,7 @@ CLAIMED = {
             "Sent; no order-breaking queue operation; re-arm is paired with the DUP patch and resets every retained entry "
             "to Write{0} unconditionally. These are inductive "
             "who-may-mutate facts that hold for histories of any length and every crash point because they quantify "
-            "over all call sites and paths; retransmission byte-identity and counting are not computed. The acknowledgement removal takes out exactly the entry it looked up by identifier (index provenance), its lookup does not depend on data that changes while the packet is in flight, and the entry is removed before the reason code is examined; the arena clauses of C17 are evaluated here as well. The removal function reports true exactly on the paths that removed an entry. Every successful handshake stores the broker's Maximum Packet Size itself (CONNACK value or none), so a limit of an earlier connection cannot refuse the replay.",
+            "over all call sites and paths; retransmission byte-identity and counting are not computed. The acknowledgement removal takes out exactly the entry it looked up by identifier (index provenance), its lookup does not depend on data that changes while the packet is in flight, and the entry is removed before the reason code is examined; the arena clauses of C17 are evaluated here as well. The removal function reports true exactly on the paths that removed an entry. Every successful handshake stores the broker's Maximum Packet Size itself (CONNACK value or none), so a limit of an earlier connection cannot refuse the replay. ReasonCode::success is tabulated over every variant against the 0x80 boundary.",
             "DESIGN.md §4 C02"),
     "C01": ("must-dataflow (DRAINED) + table extraction/value-set folding of fixed-header flags vs MQTT 5 Table 2-2 + "
             "dominance/wiring on mir_built",
@@ -39,14 +39,14 @@ CLAIMED = {
             "packet kind the client can send or retain; replay restarts all three queues at byte 0; CONNECT is the first "
             "I/O and nothing follows a DISCONNECT without the latch; remaining-length and slice wiring; fresh/in-progress "
             "decision tables. Three genuine defects are listed as known findings. The byte stream itself is not produced "
-            "or parsed: these are necessary conditions that hold for every schedule because they quantify over all paths. Also evaluated here because the stream is only well-formed if they hold: Varint::encoded_len agrees with the varint encoder (abstract interpretation), and the arena clauses of C17 (views behind retained bytes, arena writers, compaction, offset/len wiring). The identifier allocator never yields 0 (C07's clause, evaluated here: identifier 0 is malformed).",
+            "or parsed: these are necessary conditions that hold for every schedule because they quantify over all paths. Also evaluated here because the stream is only well-formed if they hold: Varint::encoded_len agrees with the varint encoder (abstract interpretation), and the arena clauses of C17 (views behind retained bytes, arena writers, compaction, offset/len wiring). The identifier allocator never yields 0 (C07's clause, evaluated here: identifier 0 is malformed). CONNECT flags, subscription options and PUBLISH flags are compared bit by bit with MQTT 5 (C09's tables).",
             "DESIGN.md §4 C01"),
     "C03": ("path-sensitive must-pass (constant-propagated path enumeration) + who-may-mutate census + wiring on mir_built",
             "Static analysis, structural clauses only: every feasible path to the PUBREL enqueue passes the success edge of "
             "the retained-removal and of the PUBREC reason check and carries the PUBREC's identifier; release entries are "
             "removed only by the PUBCOMP arm with that identifier; no order-breaking operation on the release queue; "
             "PUBREL is serialised from the step's identifier and release entries are re-armed for replay. Interleavings of "
-            "several exchanges are covered through these per-entry invariants, not enumerated. The PUBCOMP removal takes out exactly the entry it looked up (index provenance: position over the whole list, or over the tail plus one). The removal functions report true exactly when they removed an entry; the PUBREC's lookup of the PUBLISH tests the identifier only (a replayed PUBLISH has DUP set).",
+            "several exchanges are covered through these per-entry invariants, not enumerated. The PUBCOMP removal takes out exactly the entry it looked up (index provenance: position over the whole list, or over the tail plus one). The removal functions report true exactly when they removed an entry; the PUBREC's lookup of the PUBLISH tests the identifier only (a replayed PUBLISH has DUP set). ReasonCode::success is tabulated over every variant against the 0x80 boundary; a completed PUBREL flush marks the release entry of that identifier.",
             "DESIGN.md §4 C03"),
     "C04": ("path-sensitive must-pass over the inbound handler arms + wiring + who-may-mutate on mir_built",
             "Static analysis, structural clauses only: in the PUBLISH arm every feasible delivering path (QoS 1) / non-error "
@@ -54,14 +54,14 @@ CLAIMED = {
             "identifier was just recorded, recording only when not already pending; every non-error PUBREL path queues a "
             "PUBCOMP with the table-correct reason and forgets the identifier; acks are serialised off-arena into their own "
             "queue; the reset clears pending identifiers; the delivered message is re-decoded from exactly the consumed prefix "
-            "of the untouched receive buffer with fields passed through. Decoder correctness for arbitrary bytes is C08/C09. The session reset that forgets pending inbound identifiers is placed on the no-session edge, on every path, before the handshake can fail for another reason. Nothing in the inbound PUBLISH arm consults the client's own in-flight tables (broker and client identifiers are separate spaces). No await point lies between taking a PUBLISH out of the reader and returning it to the caller (C13's clause).",
+            "of the untouched receive buffer with fields passed through. Decoder correctness for arbitrary bytes is C08/C09. The session reset that forgets pending inbound identifiers is placed on the no-session edge, on every path, before the handshake can fail for another reason. Nothing in the inbound PUBLISH arm consults the client's own in-flight tables (broker and client identifiers are separate spaces). No await point lies between taking a PUBLISH out of the reader and returning it to the caller (C13's clause). A packet of exactly the advertised Maximum Packet Size fits the receive window (C14's clause).",
             "DESIGN.md §4 C04"),
     "C05": ("wiring (expression reconstruction incl. closure captures) + dominance/must-pass on the handshake's mir_built",
             "Static analysis, structural clauses only: clean_start = !session_present and the client id wiring of CONNECT; "
             "session_present is set only by the handshake after reason code and all properties were accepted; the reset runs "
             "exactly on the no-session edge, before anything else in the handshake can fail, clears outbound and inbound "
             "in-flight state and bumps the generation; the ConnectEvent follows session_present; new identifiers are "
-            "allocated only after a successful drain. Broker behaviour is not modelled. The re-arm reached from Session::connect resets every entry of every queue unconditionally. The status decision compares generations before identifiers (C18's table, evaluated here). The identifier CONNECT carries may be read from several state fields (configured / assigned); each is written only at construction and by the handshake from the CONNACK's Assigned Client Identifier.",
+            "allocated only after a successful drain. Broker behaviour is not modelled. The re-arm reached from Session::connect resets every entry of every queue unconditionally. The status decision compares generations before identifiers (C18's table, evaluated here). The identifier CONNECT carries may be read from several state fields (configured / assigned); each is written only at construction and by the handshake from the CONNACK's Assigned Client Identifier. Which CONNACK reason codes count as success is ReasonCode::success, tabulated over every variant against the 0x80 boundary.",
             "DESIGN.md §4 C05"),
     "C06": ("who-may-write + value-shape matching + path-sensitive must-pass with correlated reason-code tests + "
             "interprocedural dependence (fields touched by the callees of the stored value) on mir_built",
@@ -69,7 +69,7 @@ CLAIMED = {
             "publishes still in flight at (re)connect; decrement tied to the successful enqueue and await-free; the gate "
             "dominates encoding; increments have the shape min(q+1,max), occur only in the PUBACK / PUBCOMP / failing-PUBREC "
             "arms, only after the matching removal, and on every such path. The counting invariant over histories follows "
-            "from these per-operation facts and is not itself computed. max_inflight() is a constant no larger than the capacity of either table an exchange passes through; the in-flight count entering the stored quota is read after the fresh-session reset. The removal functions whose result credits the window report true exactly when an entry was removed; both window fields are stored by every successful handshake.",
+            "from these per-operation facts and is not itself computed. max_inflight() is a constant no larger than the capacity of either table an exchange passes through; the in-flight count entering the stored quota is read after the fresh-session reset. The removal functions whose result credits the window report true exactly when an entry was removed; both window fields are stored by every successful handshake. No PUBREL follows a failing PUBREC (C03's clause; its PUBCOMP would credit a second slot); ReasonCode::success tabulated.",
             "DESIGN.md §4 C06"),
     "C07": ("type-level fact (NonZeroU16) + wiring of every identifier sink to the allocator + must-pass over the "
             "allocator's lookups on mir_built",
@@ -83,7 +83,7 @@ CLAIMED = {
             "dominate the handshake on every path and connect() has no exit that bypasses the handshake; CONNECT is the first "
             "I/O; the CONNECT scratch must not depend on in-flight state (known finding: it is the arena tail). Because the "
             "resets are unconditional the clause holds for every prior history (all crash points of all operations) without "
-            "enumerating them. Broker behaviour is not modelled. What CONNECT advertises (Receive Maximum, Maximum Packet Size, Session Expiry) is computed from configuration and capacities, never from in-flight state. The window of a reconnected session is not charged for publishes discarded with the previous broker session. Compaction reclaims every hole (no return of compact bypasses the pass over the retained list), so the free tail CONNECT is encoded into is as large as the retained packets allow (C17's compact / used groups).",
+            "enumerating them. Broker behaviour is not modelled. What CONNECT advertises (Receive Maximum, Maximum Packet Size, Session Expiry) is computed from configuration and capacities, never from in-flight state. The window of a reconnected session is not charged for publishes discarded with the previous broker session. Compaction reclaims every hole (no return of compact bypasses the pass over the retained list), so the free tail CONNECT is encoded into is as large as the retained packets allow (C17's compact / used groups). The four negotiated runtime fields are stored by every successful handshake from the CONNACK or the default, never from their previous value.",
             "DESIGN.md §4 C12"),
     "C13": ("taint of transport byte counts vs. await points (Yield terminators of the pre-transform coroutine MIR) over "
             "the call tree + await-freedom of critical sections",
@@ -91,7 +91,7 @@ CLAIMED = {
             "operations the byte count is committed to session state (or returned to a caller that commits it) before the "
             "next await on every path, so dropping the future at any await loses no progress; allocation..enqueue sections "
             "are await-free; enqueue precedes the first write; progress setters store what they are given. One genuine "
-            "defect (disconnect via write_all) is a known finding. Equality of cancelled and uncancelled runs is not decided. The keep-alive's already-queued test sees a PINGREQ in state Write and in state Flush (truth table of the per-entry test).",
+            "defect (disconnect via write_all) is a known finding. Equality of cancelled and uncancelled runs is not decided. The keep-alive's already-queued test sees a PINGREQ in state Write and in state Flush (truth table of the per-entry test). Setter parameters are resolved by position (a transposed signature is seen at the call site); a flush resumed after a cancellation is booked on the entry of the same queue and identifier (C02's clause).",
             "DESIGN.md §4 C13"),
     "C14": ("sibling agreement of the size predicates + must-pass (path-sensitive where needed) of size checks before "
             "every write/enqueue + wiring of the advertised and the broker limit",
@@ -139,7 +139,7 @@ CLAIMED = {
             "Static analysis, structural clauses only: status table (generation first; retained / release-list membership "
             "per kind); lookups compare identifiers; handle creation wiring (kind, allocator id, current generation, only "
             "after enqueue); in each ack arm removal precedes the reason check, the failure is returned and surfaced, and a "
-            "failing PUBREC leaves no release entry. Identifier reuse is C07. The session reset that invalidates handles is placed on the no-session edge, on every path, before any other failure of the handshake. An acknowledgement finds the entry it names: the lookup tests the identifier only, nothing that changes while the packet is in flight, removes that entry and reports the removal.",
+            "failing PUBREC leaves no release entry. Identifier reuse is C07. The session reset that invalidates handles is placed on the no-session edge, on every path, before any other failure of the handshake. An acknowledgement finds the entry it names: the lookup tests the identifier only, nothing that changes while the packet is in flight, removes that entry and reports the removal. Each status query of the handle answers with the session's query of the same name; ReasonCode::success tabulated.",
             "DESIGN.md §4 C18"),
     "C19": ("decision-table extraction (135 cells) and interval extraction of value predicates vs MQTT 5; sibling coverage "
             "valid_for vs serialize; dominance of validation over every effect; wiring of the effective QoS",
